@@ -131,9 +131,33 @@ def div_rule(rep, fn):
                         break
         if ok:
             rep.proved("R-DIV", fn, inst, desc, why, node["ln"])
+        elif _caller_controlled(fn, dd):
+            rep.violated("R-DIV", fn, inst, desc, "the divisor is a parameter (or assigned from one) and no dominating test excludes zero", node["ln"])
         else:
-            rep.violated("R-DIV", fn, inst, desc, "no dominating test excludes zero", node["ln"])
+            # a value read from a data structure may be non-zero by an invariant this rule cannot see (e.g. the
+            # normalised top digit of a divisor): not a finding, and nothing is claimed
+            rep.undecided("R-DIV", fn, inst, desc, "no dominating test excludes zero; the divisor is not a parameter", node["ln"])
     return n
+
+
+def _caller_controlled(fn, dd):
+    """the divisor is a parameter, or a local whose every assignment copies a parameter"""
+    dd = core.strip_casts(dd)
+    if dd.get("k") == "bin" and dd["op"] == "+":
+        dd = core.strip_casts(dd["x"])
+    if dd.get("k") != "ref":
+        return False
+    if dd.get("dk") == "parm":
+        return True
+    srcs = []
+    for pos, root, n, ps in fn.nodes():
+        if n.get("k") == "bin" and n["op"] == "=" and core.is_ref(core.strip_casts(n["x"]), name=dd["n"]):
+            srcs.append(core.strip_casts(n["y"]))
+        if n.get("k") == "decl":
+            for v in n["vars"]:
+                if v["n"] == dd["n"] and v.get("init") is not None:
+                    srcs.append(core.strip_casts(v["init"]))
+    return bool(srcs) and all(x.get("k") == "ref" and x.get("dk") == "parm" for x in srcs)
 
 
 def _ub_simple(fn, pos, e, width_of_lhs):
